@@ -477,6 +477,22 @@ pub mod verif_hooks_info {
         let mut p = DefaultVariables::<f64>::new(0, 0);
         Info::save_prev_iterate(info, &v, &mut p);
     }
+    /// `Variables::calc_step_length` with the step direction given as a flag
+    pub fn calc_step_length(
+        vars: &DefaultVariables<f64>,
+        step: &DefaultVariables<f64>,
+        cones: &mut crate::solver::core::cones::CompositeCone<f64>,
+        settings: &DefaultSettings<f64>,
+        combined: bool,
+    ) -> f64 {
+        use crate::solver::core::StepDirection;
+        let dir = if combined { StepDirection::Combined } else { StepDirection::Affine };
+        Variables::calc_step_length(vars, step, cones, settings, dir)
+    }
+    /// `Variables::add_step`
+    pub fn add_step(vars: &mut DefaultVariables<f64>, step: &DefaultVariables<f64>, α: f64) {
+        Variables::add_step(vars, step, α)
+    }
     pub fn reset_to_prev_scalars(info: &mut DefaultInfo<f64>) {
         let mut v = DefaultVariables::<f64>::new(0, 0);
         let p = DefaultVariables::<f64>::new(0, 0);
